@@ -70,9 +70,15 @@ type exprLayout struct {
 }
 
 var exprLayouts = []exprLayout{
-	{"minimal-space", func(r *rand.Rand) model.Style { return model.Style{Parens: model.MinimalParens, Layout: model.SpaceLayout} }},
-	{"minimal-tight", func(r *rand.Rand) model.Style { return model.Style{Parens: model.MinimalParens, Layout: model.TightLayout} }},
-	{"full-space", func(r *rand.Rand) model.Style { return model.Style{Parens: model.FullParens, Layout: model.SpaceLayout} }},
+	{"minimal-space", func(r *rand.Rand) model.Style {
+		return model.Style{Parens: model.MinimalParens, Layout: model.SpaceLayout}
+	}},
+	{"minimal-tight", func(r *rand.Rand) model.Style {
+		return model.Style{Parens: model.MinimalParens, Layout: model.TightLayout}
+	}},
+	{"full-space", func(r *rand.Rand) model.Style {
+		return model.Style{Parens: model.FullParens, Layout: model.SpaceLayout}
+	}},
 	{"redundant-newline", func(r *rand.Rand) model.Style {
 		return model.Style{Parens: model.RedundantParens, Layout: model.NewlineLayout, Rng: r}
 	}},
